@@ -1,7 +1,7 @@
 #!/usr/bin/env python3
 """Writes /verif/MANIFEST.json from the table below (kept here so the manifest stays consistent)."""
 import json
-BASELINE = "cd /repo && cargo nextest run --workspace --no-fail-fast --test-threads 8 --offline || cargo test --workspace --no-fail-fast --offline"
+BASELINE = "cd /repo && (cargo nextest run --workspace --no-fail-fast --tool-config-file pb:/w/lib/nextest.toml --profile pb --test-threads 8 --offline || cargo test --workspace --no-fail-fast --offline)"
 TECH = "SymOrd: symbolic execution of the compiled bc-envelope with the digest order and the scenario's choice variables symbolic; z3 decides every order query and a final coverage-certificate query (cvc5 cross-check in the thorough tier); counterexamples replayed natively on stock dependencies"
 NOTE = "Trusted: z3 (QF_LIA order constraints), the 15-line Ord/PartialOrd shim of bc-components used only for exploration (every violation is reproduced on the stock crate before it is reported), the syntactic audit that digest bytes reach control flow only through cmp/eq/hash, real SHA-256 equality. Concrete, not solver-quantified: leaf payloads, keys, nonces (VERIF_SEED)."
 CLAIMED = {
@@ -53,6 +53,7 @@ def main():
         "hooks": {"guard": "none", "enable": "no source hooks in /repo: the order oracle lives in a patched copy of the bc-components dependency generated under /verif/symord/shim by tools/mkshim.sh", "baseline_off_cmd": BASELINE, "source_commits": [], "add_only": True},
         "engines": [
             {"name": "symord", "path": "/verif/symord", "serves_properties": sorted(CLAIMED.keys()), "kind_free_text": "symbolic execution of natively compiled code with symbolic hash order (z3 -in, push/pop), fork by re-execution, coverage certificate"},
+            {"name": "kani", "path": "/verif/kani", "serves_properties": ["C17"], "kind_free_text": "Kani 0.68 / CBMC 6.11 bounded model checking of the salt-length arithmetic (bc-components Salt::new_for_size_using and bc-rand's Lemire range reduction) at the versions /repo's Cargo.lock pins"},
             {"name": "replay", "path": "/verif/replay", "serves_properties": sorted(CLAIMED.keys()), "kind_free_text": "same harness source built against stock bc-components: native replay of counterexamples and native validation of sampled paths"},
         ],
         "checks": checks,
